@@ -8,8 +8,10 @@ import (
 	"math/rand"
 
 	ipfslog "berty.tech/go-ipfs-log"
+	"berty.tech/go-ipfs-log/enc"
 	"berty.tech/go-ipfs-log/entry"
 	"berty.tech/go-ipfs-log/iface"
+	"berty.tech/go-ipfs-log/io/cbor"
 	"github.com/ipfs/go-cid"
 	"github.com/multiformats/go-multibase"
 
@@ -78,6 +80,51 @@ func CheckC18(run *evid.Run) {
 			if s.Op == "append" && res.Err == nil {
 				appended = append(appended, res.Entry.(*entry.Entry))
 			}
+		}
+		// hand-built entries: references without predecessors, predecessors without references, both
+		for k, shape := range [][2]int{{0, 1 + rng.Intn(4)}, {1 + rng.Intn(3), 0}, {1, 1}, {0, 7}} {
+			if len(appended) == 0 || rng.Intn(2) == 0 {
+				continue
+			}
+			var nx, rf []cid.Cid
+			for q := 0; q < shape[0]; q++ {
+				nx = append(nx, appended[rng.Intn(len(appended))].Hash)
+			}
+			for q := 0; q < shape[1]; q++ {
+				rf = append(rf, appended[rng.Intn(len(appended))].Hash)
+			}
+			pl := fmt.Sprintf("%d.%d/hand%d", h.Seed, h.Idx, k)
+			ne, err := entry.CreateEntryWithIO(x.W.Ctx, x.W.Store.API(), x.W.Idents[0], &entry.Entry{LogID: x.W.LogID, Payload: []byte(pl), Next: nx, Refs: rf}, nil, x.W.IOv())
+			if err != nil {
+				run.Violate("C18/op-error", det("op", "create"), histSample(h), "creating an entry with %d predecessors and %d references failed with a link key: %v", shape[0], shape[1], err)
+				continue
+			}
+			class[pl] = "ascii"
+			appended = append(appended, ne.(*entry.Entry))
+			run.Count(fmt.Sprintf("hand_built_next%d_refs%s", minInt(shape[0], 1), map[bool]string{true: "1+", false: "0"}[shape[1] > 0]), 1)
+		}
+		// a replica restored from storage with the keyed codec keeps writing encrypted links
+		for r, l := range x.Logs {
+			if l.Len() == 0 || rng.Intn(2) == 0 {
+				continue
+			}
+			loader := hx.Loaders[rng.Intn(len(hx.Loaders))]
+			restored, err := x.W.Reload(l, loader, x.Writer[r], nil)
+			if err != nil || restored == nil {
+				continue
+			}
+			for q := 0; q < 2; q++ {
+				pl := fmt.Sprintf("%d.%d/restored%d.%d", h.Seed, h.Idx, r, q)
+				ne, err := restored.Append(x.W.Ctx, []byte(pl), &iface.AppendOptions{PointerCount: 8})
+				if err != nil {
+					run.Violate("C18/op-error", det("op", "append-after-restore", "loader", loader), histSample(h), "append on a log restored through the %s loader failed: %v", loader, err)
+					break
+				}
+				class[pl] = "ascii"
+				appended = append(appended, ne.(*entry.Entry))
+				run.Count("appended_after_restore_"+loader, 1)
+			}
+			break
 		}
 		provider := x.W.Idents[0].Provider
 		same := hx.IO(wkey) // a fresh codec instance holding the same key
@@ -185,5 +232,67 @@ func CheckC18(run *evid.Run) {
 			}
 		}
 		run.Eval(1)
+	})
+	c18FailingKey(run)
+}
+
+// failKey wraps a real link key and makes its k-th DeriveNonce / SealWithNonce call fail.
+type failKey struct {
+	enc.SharedKey
+	calls  int
+	failAt int
+}
+
+func (f *failKey) DeriveNonce(in []byte) ([]byte, error) {
+	f.calls++
+	if f.calls == f.failAt {
+		return nil, fmt.Errorf("injected link-key failure (nonce)")
+	}
+	return f.SharedKey.DeriveNonce(in)
+}
+
+func (f *failKey) SealWithNonce(p, n []byte) ([]byte, error) {
+	f.calls++
+	if f.calls == f.failAt {
+		return nil, fmt.Errorf("injected link-key failure (seal)")
+	}
+	return f.SharedKey.SealWithNonce(p, n)
+}
+
+// c18FailingKey: when sealing the links fails, the append must fail and nothing may be stored with links in clear.
+func c18FailingKey(run *evid.Run) {
+	n := pick(run.Tier, 60, 600)
+	parallel(n, func(i int) {
+		fk := &failKey{SharedKey: hx.LinkKey(1), failAt: 3 + i%14}
+		io := hx.InitIO().ApplyOptions(&cbor.Options{LinkKey: fk})
+		w := hx.NewWorld(run.Seed, 1, fmt.Sprintf("c18f-%d", i), "hash", "cbor")
+		lo := w.LogOpts(w.LogID)
+		lo.IO = io
+		l, err := ipfslog.NewLog(w.Store.API(), w.Idents[0], lo)
+		if err != nil {
+			return
+		}
+		leaked := ""
+		w.Store.OnAdd = func(c cid.Cid, raw []byte, _ func(cid.Cid) bool) {
+			if node, err := store.Decode(c, raw); err == nil && len(node.Links()) > 0 {
+				leaked = c.String()
+			}
+		}
+		failed := 0
+		for k := 0; k < 10; k++ {
+			_, err := l.Append(w.Ctx, []byte(fmt.Sprintf("f-%d-%d", i, k)), &iface.AppendOptions{PointerCount: 4})
+			if err != nil {
+				failed++
+			}
+			if leaked != "" {
+				run.Violate("C18/traversable-links", det("fault", "link key failure"), map[string]any{"case": i, "fail_at_call": fk.failAt, "append": k, "block": leaked, "append_error": fmt.Sprint(err)},
+					"after the link key failed (call %d) a block with links in clear was stored (append #%d returned %v)", fk.failAt, k, err)
+				break
+			}
+		}
+		run.Count("appends_failed_by_injected_key_failure", failed)
+		run.Count("failing_key_runs", 1)
+		run.Eval(1)
+		run.NonTrivialIf(failed > 0, fmt.Sprintf("failing-key/%d", fk.failAt))
 	})
 }
